@@ -183,17 +183,29 @@ def rinfo_source(channel) -> None:
     )
 
 
-def _find_non_builtin_globals(source: str, codeobj: types.CodeType) -> list[str]:
+def _find_non_builtin_globals(
+    source: str, codeobj: types.CodeType, globs: dict[str, Any] | None = None
+) -> list[str]:
     import ast
     import builtins
 
     vars = dict.fromkeys(codeobj.co_varnames)
+
+    def is_builtin(name: str) -> bool:
+        if name not in builtins.__dict__:
+            return False
+        # a module-level global of the same name shadows the builtin locally,
+        # but the remote side would silently run the builtin instead
+        if globs is not None and not name.startswith("__") and name in globs:
+            return globs[name] is builtins.__dict__[name]
+        return True
+
     return [
         node.id
         for node in ast.walk(ast.parse(source))
         if isinstance(node, ast.Name)
         and node.id not in vars
-        and node.id not in builtins.__dict__
+        and not is_builtin(node.id)
     ]
 
 
@@ -224,7 +236,9 @@ def _source_of_function(function: types.FunctionType | Callable[..., object]) ->
 
     source = textwrap.dedent(source)  # just for inner functions
 
-    used_globals = _find_non_builtin_globals(source, codeobj)
+    used_globals = _find_non_builtin_globals(
+        source, codeobj, getattr(function, "__globals__", None)
+    )
     if used_globals:
         raise ValueError("the use of non-builtin globals isn't supported", used_globals)
 
